@@ -68,10 +68,12 @@ JOBS = [
          min_loop_obligations=2, **E),
     dict(name='c11_rle_encoder_init', entry='h_c11_encoder_init', enforce='carquet_rle_encoder_init', loop_contracts=False,
          defines=['CQV_MEMSET_EXACT=128'], unwindset=['memset.0:129'], **E),
+    # also C12: ghost G_pad == 0 at every RLE-run emission = no zero-padded literal group in the middle of the stream, which an
+    # independent decoder would read as real values
     dict(name='c11_rle_encoder_put', replayer=FZ_RT, entry='h_c11_put', enforce='carquet_rle_encoder_put', replace=ENC_HELPERS,
-         min_loop_obligations=1, **E),
+         min_loop_obligations=1, **dict(E, props=['C11', 'C12'])),
     dict(name='c11_rle_encoder_flush', replayer=FZ_RT, entry='h_c11_flush', enforce='carquet_rle_encoder_flush', replace=ENC_HELPERS,
-         min_loop_obligations=1, **E),
+         min_loop_obligations=1, **dict(E, props=['C11', 'C12'])),
     dict(name='c11_rle_encoder_flush_append_failures', entry='h_c11_flush', enforce='carquet_rle_encoder_flush',
          replace=ENC_HELPERS, min_loop_obligations=1, defines=['RLE_CHECK_APPEND=1'], **E),
     ] + [
